@@ -131,6 +131,8 @@ def load_known():
     return json.load(open(p)).get("findings", [])
 
 def write_evidence(pid, tier_, level, coverage, assumptions, violations):
+    if os.environ.get("VERIF_NO_EVIDENCE"):      # runs against scratch copies (seeded changes) must not touch evidence/
+        return
     os.makedirs(os.path.join(VERIF, "evidence"), exist_ok=True)
     ev = dict(property_id=pid, tier=tier_, seed=seed(), level=level, coverage=coverage,
               assumptions=assumptions, wall_s=round(time.time() - T0, 1), violations=violations)
@@ -138,7 +140,7 @@ def write_evidence(pid, tier_, level, coverage, assumptions, violations):
         json.dump(ev, fh, indent=1, default=str)
 
 def save_replay(pid, obj):
-    d = os.path.join(VERIF, "replays", pid)
+    d = os.path.join(os.environ.get("VERIF_REPLAY_DIR") or os.path.join(VERIF, "replays"), pid)
     os.makedirs(d, exist_ok=True)
     raw = json.dumps(obj, sort_keys=True, default=str)
     name = hashlib.sha1(raw.encode()).hexdigest()[:12] + ".json"
